@@ -344,9 +344,12 @@ func runC14(c *Ctx) {
 		c.MustCut("R14.2", "bootstrapList append ⊣ {matches(item)}", f, func(in ssa.Instruction) bool {
 			call, ok := in.(*ssa.Call)
 
-			return ok && p.CalleeName(call) == "builtin.append" && Glob("*var:[]pkg/resource.Resource", p.Desc(call.Call.Args[0]))
+			return ok && p.CalleeName(call) == "builtin.append" && Glob("*var:[]pkg/resource.Resource*", p.Desc(call.Call.Args[0]))
 		}, CutSpec{Edges: func(e EdgeInfo) bool {
-			return AnyFact(e, func(f string) bool { return strings.HasPrefix(f, "true(call:") && strings.Contains(f, "WatchAll$") })
+			// the matcher literal called as such, or (handed to a snapshot helper and inlined there) its two predicates
+			return AnyFact(e, func(f string) bool {
+				return strings.HasPrefix(f, "true(call:") && (strings.Contains(f, "WatchAll$") || strings.Contains(f, "Matches(") && (strings.Contains(f, "IDQuery") || strings.Contains(f, "LabelQueries")))
+			})
 		}}, 1)
 	}
 
@@ -391,7 +394,7 @@ func runC14(c *Ctx) {
 				"event is Updated": upd, "old did not match": FactEdge("false(" + mOld + ")"), "new matches": FactEdge("true(" + mNew + ")"),
 			})
 			c.MustFollow("R14.3", "after a type rewrite Old is cleared before returning", fc, OrInstr(setType(evC("Destroyed")), setType(evC("Created"))), IsReturn, CutSpec{Nodes: clearOld}, 2)
-			c.MustFollow("R14.3", "a rewritten event is kept (return true)", fc, clearOld, p.RetIs(0, "const:false"), CutSpec{}, 2)
+			c.MustFollow("R14.3", "a rewritten event is kept (return true)", fc, clearOld, p.RetIs(0, "const:false"), CutSpec{}, 1)
 
 			// Updated ∧ (F,F) → false ; Updated ∧ (T,T) → true (unchanged)
 			c.NoReach("R14.3", "Updated (F,F) is dropped", fc, p.EdgeSuccs(fc, "eq(*param#0.Type,"+evC("Updated")+")"), 1, p.RetIs(0, "const:true"),
